@@ -70,3 +70,47 @@ Proof.
              H_range H_w Hfeed H_text H_branch H_mix Hup (edge_of tw cp Tn pb)).
     unfold edges_of. apply in_map. assumption.
 Qed.
+
+(* every node touched by flow that is not in the kernel's infeed set is the (flow-corrected) to node of a
+   flowing branch - by the definition infeed = setdiff1d(from[flow], to[flow]) *)
+Lemma noninfeed_has_inflow : forall tw cp amb Tn pbs i,
+  node_flow tw cp amb Tn pbs i = true -> node_infeed tw cp amb Tn pbs i = false ->
+  exists pb, In pb pbs /\ p_flow tw pb = true /\ p_tnc pb = i.
+Proof.
+  intros tw cp amb Tn pbs i Hfl Hinf. unfold node_flow, g_touches, node_infeed, g_infeed, bf in *.
+  match type of Hinf with context [negb (existsb ?f ?l)] => destruct (existsb f l) eqn:Eto end.
+  - (* some flowing branch ends in i *)
+    apply existsb_exists in Eto. destruct Eto as [[b f] [Hin H]]. apply in_map_iff in Hin.
+    destruct Hin as [pb [E Hp]]. inversion E; subst. simpl in H. apply andb_true_iff in H. destruct H as [H1 H2].
+    exists pb. repeat split; auto. apply Nat.eqb_eq in H2. exact H2.
+  - (* no flowing branch ends in i: then i is not a from node either (else it would be infeed), so no flow touches it *)
+    simpl in Hinf. rewrite andb_true_r in Hinf.
+    apply existsb_exists in Hfl. destruct Hfl as [[b f] [Hin H]]. apply in_map_iff in Hin.
+    destruct Hin as [pb [E Hp]]. inversion E; subst. simpl in H. apply andb_true_iff in H. destruct H as [Hf H].
+    apply orb_true_iff in H. destruct H as [H|H].
+    + exfalso. rewrite <- not_true_iff_false in Hinf. apply Hinf. apply existsb_exists.
+      exists (asm_branch tw cp amb Tn pb, p_flow tw pb). split; [apply in_map_iff; exists pb; split; [reflexivity|assumption]|]. simpl. rewrite Hf. exact H.
+    + exists pb. repeat split; auto. apply Nat.eqb_eq in H. exact H.
+Qed.
+
+(* global bounds with the graph hypothesis in checkable form: all nodes touched by flow, flow graph acyclic *)
+Theorem global_bounds_acyclic_pipeline : forall tw cp amb Tn isT n pbs lo hi (rank : nat -> nat),
+  (forall t, 0 < cp t) ->
+  fixed_point tw cp amb Tn isT n pbs ->
+  Forall (passive tw n lo hi) pbs ->
+  (forall i, (i < n)%nat -> node_infeed tw cp amb Tn pbs i = true -> lo <= Tn i <= hi) ->
+  (forall i, (i < n)%nat -> node_flow tw cp amb Tn pbs i = true) ->
+  (forall pb, In pb pbs -> (rank (p_fnc pb) < rank (p_tnc pb))%nat) ->
+  (forall i, (i < n)%nat -> lo <= Tn i <= hi) /\
+  (forall pb, In pb pbs -> lo <= p_tout pb <= hi).
+Proof.
+  intros tw cp amb Tn isT n pbs lo hi rank Hcp Hfp Hpas Hfeed Hflow Hrank.
+  apply (global_bounds_pipeline tw cp amb Tn isT n pbs lo hi Hcp Hfp Hpas Hfeed).
+  pose proof Hpas as Hpas'. rewrite Forall_forall in Hpas'.
+  apply (up_from_rank n (node_infeed tw cp amb Tn pbs) (edges_of tw cp Tn pbs) rank).
+  - intros e He. unfold edges_of in He. apply in_map_iff in He. destruct He as [pb [<- Hp]].
+    destruct (Hpas' pb Hp) as (_&_&_&_&_&_&_&H1&H2&_). unfold edge_of, p_fnc, p_tnc; simpl. destruct (p_sw pb); split; assumption.
+  - intros e He. unfold edges_of in He. apply in_map_iff in He. destruct He as [pb [<- Hp]]. simpl. apply Hrank. assumption.
+  - intros i Hi Hnf. destruct (noninfeed_has_inflow tw cp amb Tn pbs i (Hflow i Hi) Hnf) as [pb [Hp [_ Ht]]].
+    exists (edge_of tw cp Tn pb). split; [unfold edges_of; apply in_map; assumption|exact Ht].
+Qed.
